@@ -42,6 +42,24 @@ fn expiry_text() -> BoxedStrategy<String> {
         .boxed()
 }
 
+/// Documents as in C11, where a third of the layouts additionally list one RSA key under both of its
+/// signature schemes (one key material, two key descriptions, two key ids) and/or an ECDSA key.
+fn docs() -> BoxedStrategy<Doc> {
+    (doc_strategy(true), 0u8..6, 0..RSA_POOL.len(), 0..ECDSA_POOL, any::<bool>())
+        .prop_map(|(doc, mode, idx, ec, first512)| match doc {
+            Doc::Layout(mut l) if mode < 2 => {
+                l.keys.push(KeySpec::Rsa { idx, sha512: first512 });
+                l.keys.push(KeySpec::Rsa { idx, sha512: !first512 });
+                if mode == 1 {
+                    l.keys.push(KeySpec::Ec { idx: ec });
+                }
+                Doc::Layout(l)
+            }
+            d => d,
+        })
+        .boxed()
+}
+
 fn feature_rich(doc: &Doc) -> bool {
     let strings = doc.strings();
     let non_ascii = strings.iter().any(|s| !s.is_ascii());
@@ -147,7 +165,7 @@ impl Property for C16 {
     fn rule() -> String {
         "Generated: layouts, links and signed blocks built through the library's builders (every rule form with/without prefixes, \
          thresholds 0..u32::MAX, empty and non-empty collections, environment None/empty/entries, byproducts with every subset of the \
-         optional fields plus extra fields, all key types, 1-2 digest algorithms per artifact, Unicode text everywhere, whole-second \
+         optional fields plus extra fields, all key types (a third of the layouts list one RSA key under both of its signature schemes - one material, two key ids - and an ECDSA key), 1-2 digest algorithms per artifact, Unicode text everywhere, whole-second \
          expiries in years 1970-9999); independently rendered wire documents (member order, whitespace, escape spelling, optional members \
          absent, expiry spelled in another UTC offset). Oracle: parse(ser(v)) == v for compact and pretty; ser(parse(ser(v))) is \
          byte-identical, repeated 8 times on freshly parsed instances (samples hash-map orders); for rendered documents that parse, every \
@@ -166,8 +184,8 @@ impl Property for C16 {
     }
     fn strategy(_tier: Tier) -> BoxedStrategy<Spec> {
         prop_oneof![
-            3 => (doc_strategy(true), distinct_keys(0, 2, true), any::<bool>()).prop_map(|(doc, signers, as_block)| Spec::Built { doc, signers, as_block }),
-            2 => (doc_strategy(true), entropy(), any::<u8>(), proptest::option::weighted(0.5, -1439i16..1440), any::<bool>())
+            3 => (docs(), distinct_keys(0, 2, true), any::<bool>()).prop_map(|(doc, signers, as_block)| Spec::Built { doc, signers, as_block }),
+            2 => (docs(), entropy(), any::<u8>(), proptest::option::weighted(0.5, -1439i16..1440), any::<bool>())
                 .prop_map(|(doc, spell, drop_optional, offset_minutes, as_block)| Spec::Rendered { doc, spell, drop_optional, offset_minutes, as_block }),
             1 => expiry_text().prop_map(|text| Spec::Expiry { text }),
         ]
